@@ -126,8 +126,20 @@ fn materialise(root: &Path, n: usize, adj: &[Vec<bool>], variant: u64, dangling:
                 }
                 order.push_str(&format!("[[order.group]]\nid = \"{}\"\nversion = \"1.0.0\"\n", id_of(*j)));
             }
+            // variant bit 10: the order also names a buildpack of this workspace that package.toml refers to as a published image,
+            // and the non-libcnb.rs buildpack next door: neither is a libcnb: dependency, so neither belongs to the closure
+            let foreign_member = (0..n).find(|j| *j != i && !deps.contains(j)).filter(|_| variant >> 10 & 1 == 1);
+            if variant >> 10 & 1 == 1 {
+                if let Some(j) = foreign_member {
+                    order.push_str(&format!("[[order.group]]\nid = \"{}\"\nversion = \"1.0.0\"\n", id_of(j)));
+                }
+                order.push_str("[[order.group]]\nid = \"vp/other\"\nversion = \"1.0.0\"\noptional = true\n");
+            }
             fs::write(d.join("buildpack.toml"), format!("api = \"0.10\"\n[buildpack]\nid = \"{}\"\nversion = \"1.0.0\"\n[[order]]\n{order}", id_of(i))).unwrap();
             let mut pkg = String::from("[buildpack]\nuri = \".\"\n");
+            if let Some(j) = foreign_member {
+                pkg.push_str(&format!("[[dependencies]]\nuri = \"docker://docker.io/vp/n{j}:1.0.0\"\n"));
+            }
             for (k, j) in deps.iter().enumerate() {
                 if k % 2 == 0 {
                     pkg.push_str("[[dependencies]]\nuri = \"docker://docker.io/heroku/procfile-cnb:2.0.1\"\n");
@@ -326,7 +338,7 @@ pub fn run(args: &[String]) {
             if counter % nshards != shard {
                 continue;
             }
-            let variant = ((counter.wrapping_mul(0x9E37_79B9_7F4A_7C15) >> 40) + seed) % 1024;
+            let variant = ((counter.wrapping_mul(0x9E37_79B9_7F4A_7C15) >> 40) + seed) % 2048;
             // every third graph is laid out at one and the same path (removed and rebuilt in between): nothing learnt about a path
             // while loading an earlier workspace may leak into the next
             let root = if counter % 3 == 0 { work.join("reused") } else { work.join(format!("d{counter}")) };
@@ -357,7 +369,7 @@ pub fn run(args: &[String]) {
         }
         let sels = selections(n, Some((40, &mut rng)));
         let root = if r % 2 == 0 { work.join("reused") } else { work.join(format!("r{r}")) };
-        check_dag(&root, n, &adj, rng.below(1024), &sels, &mut tally);
+        check_dag(&root, n, &adj, rng.below(2048), &sels, &mut tally);
     }
     // dangling dependency
     let mut dangling_checked = 0;
@@ -376,7 +388,7 @@ pub fn run(args: &[String]) {
         }
         let who = rng.below(n as u64) as usize;
         let root = work.join(format!("m{r}"));
-        materialise(&root, n, &adj, rng.below(1024), Some(who));
+        materialise(&root, n, &adj, rng.below(2048), Some(who));
         dangling_checked += 1;
         match build_libcnb_buildpacks_dependency_graph(&root) {
             Ok(_) => {
